@@ -2,7 +2,8 @@
     bscript/interpreter/operations.go (opcodeCheckSig, opcodeCheckSigVerify, opcodeCheckMultiSig,
     opcodeCheckMultiSigVerify), thread.go (subScript, checkHashTypeEncoding, checkPubKeyEncoding,
     checkSignatureEncoding, the part of apply that records the previous output on the input),
-    opcodeparser.go (removeOpcodeByData, removeOpcode, canonicalPush, Unparse, ParsedOpcode.bytes).
+    opcodeparser.go (removeOpcodeByData, removeOpcode, Unparse, ParsedOpcode.bytes), bscript/oppushdata.go
+    (PushDataPrefix).
 
     ECDSA (go-bk/bec: ParsePubKey, ParseSignature / ParseDERSignature, Signature.Verify) is NOT
     modelled: it is an oracle record [sig_oracle]; every theorem quantifies over all oracles and the
@@ -28,34 +29,6 @@ Record sig_oracle := mkOracle {
 }.
 
 (** ** opcodeparser.go *)
-
-(** bytes.Contains(hay, needle) *)
-Fixpoint is_prefix (needle hay : bytes) : bool :=
-  match needle, hay with
-  | [], _ => true
-  | x :: n', y :: h' => byte_eqb x y && is_prefix n' h'
-  | _ :: _, [] => false
-  end.
-Fixpoint bytes_contains (hay needle : bytes) : bool :=
-  is_prefix needle hay || match hay with [] => false | _ :: r => bytes_contains r needle end.
-
-(** ParsedOpcode.canonicalPush *)
-Definition canonical_push (p : pop) : bool :=
-  let v := p_val p in
-  let dl := length (p_data p) in
-  if (OP_16 <? v)%N then true
-  else if (v <? OP_PUSHDATA1)%N && (OP_0 <? v)%N && Nat.eqb dl 1 &&
-          match p_data p with x :: _ => (b2n x <=? 16)%N | [] => false end then false
-  else if (v =? OP_PUSHDATA1)%N && (N.of_nat dl <? 76)%N then false
-  else if (v =? OP_PUSHDATA2)%N && (N.of_nat dl <=? 255)%N then false
-  else if (v =? OP_PUSHDATA4)%N && (N.of_nat dl <=? 65535)%N then false
-  else true.
-
-(** ParsedScript.removeOpcodeByData / removeOpcode *)
-Definition remove_by_data (ops : list pop) (data : bytes) : list pop :=
-  filter (fun p => negb (canonical_push p) || negb (bytes_contains (p_data p) data)) ops.
-Definition remove_opcode (ops : list pop) (v : N) : list pop :=
-  filter (fun p => negb (p_val p =? v)%N) ops.
 
 (** ParsedOpcode.bytes; [None] = ErrInternal *)
 Definition pop_bytes (p : pop) : option bytes :=
@@ -83,6 +56,30 @@ Fixpoint unparse (ops : list pop) : option bytes :=
       | Some b => match unparse r with Some rest => Some (b ++ rest) | None => None end
       end
   end.
+
+(** bscript.PushDataPrefix: the prefix of the push a script serialises [data] with (the smallest push
+    instruction that fits; for empty data the single byte 00 = OP_0); [None] = ErrDataTooBig *)
+Definition push_prefix (data : bytes) : option bytes :=
+  let l := N.of_nat (length data) in
+  if (l <=? 75)%N then Some [n2b l]
+  else if (l <=? 255)%N then Some [n2b OP_PUSHDATA1; n2b l]
+  else if (l <=? 65535)%N then Some (n2b OP_PUSHDATA2 :: le_enc 2 l)
+  else if (l <=? 4294967295)%N then Some (n2b OP_PUSHDATA4 :: le_enc 4 l)
+  else None.
+
+(** pop.bytes() succeeds and equals [push], byte for byte *)
+Definition is_push_of (push : bytes) (p : pop) : bool :=
+  match pop_bytes p with Some b => bytes_eqb b push | None => false end.
+
+(** ParsedScript.removeOpcodeByData: drop the opcodes whose serialisation is the push of [data] *)
+Definition remove_by_data (ops : list pop) (data : bytes) : list pop :=
+  match push_prefix data with
+  | None => ops
+  | Some pre => filter (fun p => negb (is_push_of (pre ++ data) p)) ops
+  end.
+(** ParsedScript.removeOpcode *)
+Definition remove_opcode (ops : list pop) (v : N) : list pop :=
+  filter (fun p => negb (p_val p =? v)%N) ops.
 
 (** ** thread.go: the three encoding checks (true = nil error) *)
 
@@ -150,9 +147,14 @@ Definition check_sig_enc (c : ctx) (sig : bytes) : enc_res :=
       at_ sig sOffset (fun s0 => if negb (N.land s0 128 =? 0)%N then EncErr else
       let after_s_padding :=
         if has_flag c F_LOWS then
-          (* sig[sOffset : sOffset+sLen] *)
-          if Nat.ltb sigLen (sOffset + sLen) then EncPanic
-          else if (half_order <? be_dec (firstn sLen (skipn sOffset sig)))%N then EncErr else EncOk
+          (* sig[rOffset : rOffset+rLen], sig[sOffset : sOffset+sLen] *)
+          if Nat.ltb sigLen (4 + rLen) then EncPanic
+          else if Nat.ltb sigLen (sOffset + sLen) then EncPanic
+          else
+            let rValue := be_dec (firstn rLen (skipn 4 sig)) in
+            let sValue := be_dec (firstn sLen (skipn sOffset sig)) in
+            (* rValue.Cmp(order) < 0 && sValue.Cmp(order) < 0 && sValue.Cmp(halfOrder) > 0 *)
+            if (rValue <? curve_order)%N && (sValue <? curve_order)%N && (half_order <? sValue)%N then EncErr else EncOk
         else EncOk in
       if Nat.ltb 1 sLen && (s0 =? 0)%N
       then at_ sig (sOffset + 1) (fun s1 => if (N.land s1 128 =? 0)%N then EncErr else after_s_padding)
@@ -231,7 +233,8 @@ Definition checksig_run (orc : sig_oracle) (t : tx) (in_idx : N) (c : ctx) (s : 
       let s1 := set_ds s r in
       option_map (finish_verify vf)
       match split_last full with
-      | None => Some (push_bool s1 false)                               (* len(fullSigBytes) < 1 *)
+      | None =>                                                         (* len(fullSigBytes) < 1: the key is still checked *)
+          if negb (check_pubkey_enc c pk) then Some OErr else Some (push_bool s1 false)
       | Some (sig, hb) =>
           let shf := b2n hb in
           if negb (check_hash_type c shf) then Some OErr else
@@ -277,15 +280,22 @@ Fixpoint upd {A} (l : list A) (i : nat) (x : A) : list A :=
   | y :: r, S k => y :: upd r k x
   end.
 
-(** the per-signature stripping loop before the matching loop, with the FORKID guard *)
+(** the per-signature removal loop before the matching loop, with the FORKID guard: only the pushes of
+    the signatures are removed here, an empty signature (no hash type, hence no FORKID bit) included *)
 Definition multisig_strip_one (c : ctx) (ops : list pop) (raw : bytes) : list pop :=
   match split_last raw with
   | Some (_, hb) =>
-      if has_flag c F_FORKID && flag_has (b2n hb) sh_forkid then ops else strip_sig ops raw
-  | None => strip_sig ops raw
+      if has_flag c F_FORKID && flag_has (b2n hb) sh_forkid then ops else remove_by_data ops raw
+  | None => remove_by_data ops raw
   end.
 Definition multisig_code_ops (c : ctx) (s : st) (sigs : list bytes) : list pop :=
   fold_left (multisig_strip_one c) sigs (sub_script s).
+
+(** inside the matching loop: the separators are removed for the digest of a signature that does not
+    use the FORKID digest, and for that signature only *)
+Definition sig_code_ops (c : ctx) (script : list pop) (shf : N) : list pop :=
+  if negb (has_flag c F_FORKID) || negb (flag_has shf sh_forkid)
+  then remove_opcode script OP_CODESEPARATOR else script.
 
 Inductive loop_res :=
 | LDone (success : bool)
@@ -303,7 +313,7 @@ Variable orc : sig_oracle.
 Variable t : tx.
 Variable in_idx : N.
 Variable c : ctx.
-Variable script : list pop.         (* the stripped script; unparsed for every verification *)
+Variable script : list pop.         (* the script minus the removed signature pushes; [sig_code_ops] of it is unparsed for every verification *)
 Variable pks sigs : list bytes.     (* pubKeys, signatures (raw) in pop order *)
 
 (** for numSignatures > 0 { ... }: every iteration increments pubKeyIdx, so fuel = number of keys + 1 *)
@@ -327,7 +337,7 @@ Fixpoint ms_loop (fuel : nat) (m : memo) (pubKeyIdx numPubKeys signatureIdx numS
               (* everything after the signature has been parsed successfully *)
               let with_parsed (m' : memo) : loop_res :=
                 if negb (orc_parse_pub orc pubKey) then ms_loop f m' pubKeyIdx numPubKeys signatureIdx numSignatures else
-                match unparse script with
+                match unparse (sig_code_ops c script shf) with
                 | None => LPushFalse
                 | Some up =>
                     match sighash_for t in_idx up shf with
@@ -367,12 +377,16 @@ Fixpoint ms_loop (fuel : nat) (m : memo) (pubKeyIdx numPubKeys signatureIdx numS
   end.
 End Loop.
 
+(** popMultiSigCount: the counts are numbers of at most 4 bytes, before and after genesis *)
+Definition pop_count (c : ctx) (b : bytes) : option Z :=
+  match make_num b 4 (has_flag c F_MINIMALDATA) with NumOk z => Some z | _ => None end.
+
 Definition checkmultisig_run (orc : sig_oracle) (t : tx) (in_idx : N) (c : ctx) (s : st) (idx : nat) (vf : bool)
   : option outcome :=
   match ds s with
   | [] => Some OErr
   | nk :: d1 =>
-      match pop_num c nk with
+      match pop_count c nk with
       | None => Some OErr
       | Some nkz =>
           let numPubKeys := to_int32 nkz in
@@ -386,7 +400,7 @@ Definition checkmultisig_run (orc : sig_oracle) (t : tx) (in_idx : N) (c : ctx) 
               match d2 with
               | [] => Some OErr
               | ns :: d3 =>
-                  match pop_num c ns with
+                  match pop_count c ns with
                   | None => Some OErr
                   | Some nsz =>
                       let numSignatures := to_int32 nsz in
